@@ -403,13 +403,15 @@ pub fn cases() -> Vec<WriterCase> {
 
 /// Runs one writer script against a sink with the given plan.
 pub fn run_case(c: &WriterCase, plan: Plan, stop_at_error: bool, max_write: usize) -> (ScriptResult, Vec<u8>, usize) {
-    run_case2(c, plan, None, stop_at_error, max_write)
+    let (r, b, n, _) = run_case2(c, plan, None, stop_at_error, max_write);
+    (r, b, n)
 }
-pub fn run_case2(c: &WriterCase, plan: Plan, second: Option<usize>, stop_at_error: bool, max_write: usize) -> (ScriptResult, Vec<u8>, usize) {
+/// returns (step results, accepted bytes, sink calls, number of injected faults that fired)
+pub fn run_case2(c: &WriterCase, plan: Plan, second: Option<usize>, stop_at_error: bool, max_write: usize) -> (ScriptResult, Vec<u8>, usize, usize) {
     let mut sink = GuardSink::new(plan, max_write);
     sink.second = second;
     let probe = sink.inner.clone();
     let mut r = Runner::new(probe.clone(), stop_at_error);
     (c.run)(&mut r, sink);
-    (r.res, probe.bytes(), probe.n_calls())
+    (r.res, probe.bytes(), probe.n_calls(), probe.fired())
 }
